@@ -1099,6 +1099,9 @@ type modReport struct {
 }
 
 func generate(repo, outDir string) (map[string]*modReport, error) {
+	if *apiFuncs != "" {
+		listAPIFuncs(repo, *apiFuncs) // pins.go; prints and exits
+	}
 	c := newCtx(repo)
 	byMod := map[string][]*Site{}
 	var mods []string
